@@ -52,6 +52,10 @@ func (f feat) String() string {
 type advItem struct {
 	k        int // feature index, -1 unknown
 	required bool
+	// for an unknown item: index of a configured feature whose namespace (but not
+	// whose element name) the unknown element carries, -1 none.  Such an element
+	// is not that feature's advertisement.
+	alias int
 }
 
 type selection struct {
@@ -80,6 +84,9 @@ func (tc tcase) String() string {
 			fmt.Fprintf(&sb, "\n  advertisement %d:", i)
 			for _, it := range a {
 				fmt.Fprintf(&sb, " f%d(required=%v)", it.k, it.required)
+				if it.k < 0 && it.alias >= 0 {
+					fmt.Fprintf(&sb, "[an element <other/> in the namespace of f%d]", it.alias)
+				}
 			}
 		}
 	} else {
@@ -136,7 +143,10 @@ func genCase(t *rapid.T) tcase {
 			var adv []advItem
 			ni := rapid.IntRange(0, 4).Draw(t, "nitems")
 			for j := 0; j < ni; j++ {
-				it := advItem{k: rapid.IntRange(-1, n-1).Draw(t, "item")}
+				it := advItem{k: rapid.IntRange(-1, n-1).Draw(t, "item"), alias: -1}
+				if it.k < 0 && rapid.Bool().Draw(t, "alias") {
+					it.alias = rapid.IntRange(0, n-1).Draw(t, "aliasof")
+				}
 				if it.k >= 0 && rapid.IntRange(0, 4).Draw(t, "honest") > 0 {
 					it.required = tc.feats[it.k].mandatory
 				} else {
@@ -349,6 +359,8 @@ func (r *run) advertisement(adv []advItem) string {
 		space, local := "urn:verif:unknown", "unknown"
 		if it.k >= 0 {
 			space, local = r.tc.feats[it.k].space, r.tc.feats[it.k].local
+		} else if it.alias >= 0 {
+			space, local = r.tc.feats[it.alias].space, "other"
 		}
 		sb.WriteString(`<` + local + ` xmlns="` + space + `">`)
 		if it.required {
@@ -928,6 +940,13 @@ func classify(tc tcase) (bool, []string) {
 	}
 	if mixed {
 		classes = append(classes, "mixed-mandatory-voluntary-advertisement")
+	}
+	for _, a := range tc.adverts {
+		for _, it := range a {
+			if it.k < 0 && it.alias >= 0 {
+				classes = append(classes, "advertisement-has-foreign-element-in-a-feature-namespace")
+			}
+		}
 	}
 	restarts := false
 	for _, f := range tc.feats {
